@@ -114,6 +114,28 @@ def register(reg, P):
     reg("A7", "vmap_out_axes_1_square/mul", functools.partial(P, jax.vmap(lambda a, b: a * b, in_axes=(0, 1), out_axes=1), [((3, 3), F32), ((3, 3), F32)]))
     reg("A7", "vmap_nested/sin", functools.partial(P, jax.vmap(jax.vmap(jnp.sin)), [((2, 2, 3), F32)]))
 
+    # index-consuming substitute (one_hot) under vmap: every class axis x batch axis x out axis on a
+    # rank-2 example; the batching rule shifts `axis` past the batch dimension, which is invisible
+    # when the batch axis is 0 and the class axis is last
+    I32 = np.int32
+    oh = late(lambda i, ax: jax.nn.one_hot(i, 3, axis=ax))
+    for ax in (0, 1, 2, -1, -2):
+        for ia in (0, 1, 2):
+            for oa in (0, 1, -1):
+                tier = "quick" if (ax, ia, oa) in ((0, 1, 0), (1, 0, -1), (-1, 2, 1), (-2, 1, 0), (2, 0, 0)) else "thorough"
+                reg("A7", f"vmap_onehot/ax{ax}_in{ia}_out{oa}", functools.partial(P, jax.vmap(lambda i, ax=ax: oh(i, ax), in_axes=ia, out_axes=oa), [((2, 2, 2), I32)]), tier=tier)
+    reg("A7", "vmap_onehot/nested_ax0", functools.partial(P, jax.vmap(jax.vmap(lambda i: oh(i, 0), in_axes=1), in_axes=1), [((2, 2, 2), I32)]))
+
+    # two-operand substitutes whose batching rule normalises `axis` against an operand that may or may
+    # may not carry the batch dimension: masked softmax with only the mask / only the logits / both mapped
+    BOOL = np.bool_
+    for fn_name in ("softmax", "log_softmax"):
+        for ax in (-1, 0, 1, -2):
+            msm = late(lambda x, m, ax=ax, fn_name=fn_name: getattr(jax.nn, fn_name)(x, axis=ax, where=m))
+            for ia, shapes in (((None, 0), ((2, 3), (2, 2, 3))), ((0, None), ((2, 2, 3), (2, 3))), ((0, 0), ((2, 2, 3), (2, 2, 3))), ((1, 0), ((2, 2, 3), (2, 2, 3))), ((None, 2), ((2, 3), (2, 3, 2)))):
+                tier = "quick" if fn_name == "softmax" and (ax, ia) in ((-1, (None, 0)), (0, (None, 0)), (-1, (0, None)), (1, (1, 0)), (-2, (None, 2))) else "thorough"
+                reg("A7", f"vmap_masked_{fn_name}/ax{ax}_in{ia[0]}_{ia[1]}", functools.partial(P, jax.vmap(msm, in_axes=ia), [(shapes[0], F32), (shapes[1], BOOL)]), tier=tier)
+
     # custom_jvp / custom_vjp
     @jax.custom_jvp
     def cj(x):
